@@ -1,12 +1,13 @@
 (* C07 -- == is region equality and an equivalence relation.  Statements only; proofs in
    Lemmas/Tolerance.v, Lemmas/Fuel.v.  The model contains all four __eq__ (curve: sample
    containment, clean, rotation search; Simple: float areas then curves; Connected: total area
-   within 1e-6 only; Disjoint: greedy matching).
+   within 1e-6, then greedy matching of the sub-shapes; Disjoint: greedy matching).
    Proved (polygons): == returns a bool (never raises, never loops) on well-formed input;
    shapes of different kinds compare unequal; a cleaned polygon with edges longer than the
-   tolerance is == to itself.  NOT proved -- and FALSE of the code: ConnectedShape.__eq__ compares
-   total area only (C07_refuted_connected, known finding F8); with the 1e-9 point tolerance ==
-   is not transitive (known finding F9).  Representation independence (start vertex, inserted
+   tolerance is == to itself.  ConnectedShape.__eq__ compared total area only (defect F8,
+   repaired: the model follows the repaired code, C07_connected_regression).  NOT proved -- and
+   false of the code: with bit-identical float areas and the 1e-9 point tolerance == is not
+   transitive and depends on the float encoding (known finding F9).  Representation independence (start vertex, inserted
    collinear vertices, component order), symmetry and "== iff same region" are checked by the
    oracle on pools of variants (partial). *)
 From Coq Require Import List.
@@ -36,11 +37,11 @@ Theorem C07_reflexive : forall j, all_lines j = true -> j <> [] ->
 Proof. exact jordan_eq_refl. Qed.
 Print Assumptions C07_reflexive.
 
-(* the model exhibits the known finding F8: two hollow squares at different places are == *)
-Example C07_refuted_connected :
+(* regression for the repaired defect F8: two hollow squares at different places are not == *)
+Example C07_connected_regression :
   let hollow x := SC (CC [[[(x,0);(x+4,0)];[(x+4,0);(x+4,4)];[(x+4,4);(x,4)];[(x,4);(x,0)]];
                           [[(x+1,1);(x+1,3)];[(x+1,3);(x+3,3)];[(x+3,3);(x+3,1)];[(x+3,1);(x+1,1)]]]) in
-  shape_eq (hollow 0) (hollow 10) = Ok true
+  shape_eq (hollow 0) (hollow 10) = Ok false /\ shape_eq (hollow 10) (hollow 10) = Ok true
   /\ region (hollow 0) (1#2,1#2) = RIn /\ region (hollow 10) (1#2,1#2) = ROut.
 Proof. vm_compute. repeat split; reflexivity. Qed.
 Example C07_nonvacuous : jordan_eq Winding.sq Winding.sq = Ok true.
